@@ -115,6 +115,26 @@ def judge(mode: str, cfg: dict, oracle: Oracle, rec: dict) -> dict[str, bool]:
         v["NoLessDrillingEvaluated"] = all(n_sel * H <= e["n"] * HMAX + 1e-3 for e in evals_max if e["v"] < 0)
     else:
         v["NoLessDrillingEvaluated"] = True
+    # C05: the candidate immediately before the selected one was evaluated and fails at maximum height (1D / 2D lists)
+    if sel and not esc and mode in ("1D", "2D") and noties and f[1] > 1:
+        pk = oracle.memo.get(((f[0], f[1] - 1) if _cnt(cfg, mode, (f[0], f[1] - 1), oracle) != 1 else (1, 1), "max"))
+        sk = oracle.memo.get((f if n_sel != 1 else (1, 1), "max"))
+        pred_evaluated = any(e["e"] == "eval" and e["f"] == (f[0], f[1] - 1) and e["h"] == HMAX for e in log)
+        v["PredecessorFails"] = bool(sk is not None and sk < 0 and pred_evaluated and pk is not None and pk > 0)
+    else:
+        v["PredecessorFails"] = True
+    # C05: under an excess that is monotone along the list (on what was evaluated) the first feasible candidate is selected
+    if sel and not esc and mode == "1D" and noties and f[1] > 1:
+        lst = cfg["lists"][0]
+        ev = {}
+        for (kf, lvl), x in oracle.memo.items():
+            if lvl == "max" and isinstance(kf, tuple) and len(kf) == 2 and kf[0] == 1:
+                ev[kf[1]] = x
+        anti = all(ev[a] > 0 or ev[b] < 0 for a in ev for b in ev if a < b)
+        allowed = [i + 1 for i, c in enumerate(lst) if not cfg["cap"] or c < cfg["cap"]]
+        v["FirstFeasibleIfMonotone"] = (not anti) or all(f[1] <= i for i in allowed if i in ev and ev[i] < 0)
+    else:
+        v["FirstFeasibleIfMonotone"] = True
     v["RootUnlessClamped"] = (not sel) or (H in (HMIN, HMAX)) or abs(ex(f, H)) <= TOL_K
     # C12
     sa = out.get("sim_at")
